@@ -95,7 +95,7 @@ def make(rng, shape, json_layer):
     c = {"fam": "dict", "tree": t, "cls": cls,
          "maxlevel": rng.choice([None, None, 0, 1, 2, h, h + 1]),
          "attriter": rng.choice(["none", "none", "sorted", "drop_a", "dup_first"]),
-         "childiter": rng.choice(["list", "list", "reversed", "first2"]),
+         "childiter": rng.choice(["list", "list", "reversed", "first2", "none", "tail"]),
          "dictcls": rng.choice([None, "ordered"]),
          "defaults": rng.random() < 0.3}
     # start node: the root, or some inner node (a random walk down the shape)
@@ -107,7 +107,9 @@ def make(rng, shape, json_layer):
     c["start"] = addr
     if rng.random() < 0.5:
         c["data"] = rand_ddata(rng, 0, cls == "node")
-    if rng.random() < 0.3:
+    if c["attriter"] == "drop_a" and rng.random() < 0.5:
+        c["via_subclass"] = True       # the same customisation through a DictExporter subclass (overridden method)
+    if rng.random() < 0.3 and not c.get("via_subclass"):
         # the same DictExporter object exported before, and a user hook aborted that export at its k-th node
         c["prior"] = [rng.randrange(1, atree_size(t) + 1) for _ in range(rng.choice([1, 1, 2]))]
     if json_layer:
@@ -132,6 +134,8 @@ def make(rng, shape, json_layer):
             c["maxlevel"] = jmax
             c["defaults"] = True
         else:
+            if rng.random() < 0.5 and not c.get("prior"):
+                c["attriter"], c["via_subclass"] = "drop_a", True     # a DictExporter subclass as the custom exporter
             c["dictmaxlevel"] = c["maxlevel"]        # the custom dictexporter's own maxlevel …
             c["maxlevel"] = jmax if jmax is not None else c["maxlevel"]   # … is overridden by the JSON exporter's
             c["defaults"] = False
